@@ -153,6 +153,7 @@ def _corpus_cov(cs, ms, pid, extra_rule=""):
                 "the repository's own test configurations, TLC-generated scenario scripts), validated event by event "
                 "against HMS.tla by TLC; all runs are distinct configurations/seeds" + extra_rule,
         "corpus": {k: v for k, v in st.items()},
+        "informational_clauses": _info_counts(cs),
         "trace_spec_states": cs["tlc_states"],
     }
     if ms:
@@ -161,6 +162,18 @@ def _corpus_cov(cs, ms, pid, extra_rule=""):
                         "clauses": MODEL_CLAUSES.get(pid, []),
                         "stall_witness_reachable": ms["stall_witness_reachable"]}
     return cov
+
+
+def _info_counts(cs):
+    """occurrences of clauses that are deliberately NOT violations (stricter than any listed property): protocol
+    desynchronisation, id scheme, level order, verdicts of shipped conditions other than MetaepochLimit / DontRun, ..."""
+    import collections
+    c = collections.Counter()
+    for r in cs["results"]:
+        for clause in {v[0] for v in r["viol"]}:
+            if not (len(clause) > 3 and clause[0] == "C" and clause[1:3].isdigit()):
+                c[clause] += 1
+    return dict(c)
 
 
 def _need(stats, keys):
@@ -180,6 +193,9 @@ TABLES = {   # name -> (module, replay script, description of the enumerated spa
     "r5s": ("R5S", "harness/replay_r5s.py",
             "R5S.tla table: every population of Size distinct lattice points with distinct ranks (all rank orders); the "
             "transcribed selection is the oracle; each row replayed on R5SSelection in both directions with rotated input order"),
+    "voting": ("Voting", "harness/replay_voting.py",
+               "Voting.tla table: every preference profile of NVoters rankings over NCand candidates, committee sizes 1..NCand-1; "
+               "SNTV / Bloc / k-Borda / greedy Chamberlin-Courant as relations; replayed on the policies of multiwinner.py"),
     "sprout": ("Sprout", "harness/replay_sprout.py",
                "Sprout.tla tables: DemeLimit (all rank vectors with ties x limits), LevelLimit (pooled candidates of root/A/B x "
                "occupancy incl. more active demes than the limit x L), SkipSameSprout (equal / different seeds of the same / another "
@@ -383,3 +399,22 @@ def c14(tier: str) -> PropResult:
         "the specification's contribution is thin here (equality of behaviours); the quantifier is carried by the corpus",
         "minimize(seed=...) repeats are covered by the MinimizeAPI stage (C03/C04)",
     ], vacuity=vac)
+
+
+# ----------------------------------------------------------------------------- beyond the list
+def growth(tier: str) -> int:
+    """Specification modules that cover behaviour outside the 20 listed properties.  Findings are printed as
+    OBSERVATION lines and never fail (no property is attached)."""
+    from .mod_table import table_stage
+    module, replay, desc = TABLES["voting"]
+    st = table_stage("voting", module, tier, replay)
+    rep = st.get("replay", {})
+    print(f"Voting.tla: {st['tlc']['distinct']} states, {st.get('table_rows')} rows, {rep.get('evaluations')} policy calls")
+    by = {}
+    for v in rep.get("violations", []):
+        by.setdefault(v["clause"], []).append(v)
+    for clause, vs in sorted(by.items()):
+        print(f"OBSERVATION (no listed property): {clause}: {len(vs)} rows disagree with the definition, e.g. {vs[0]['signature']} -> {vs[0]['detail']}")
+    if not by:
+        print("Voting rules conform to Voting.tla on every row")
+    return 0
